@@ -6,6 +6,8 @@ import (
 	"strings"
 
 	"github.com/ProtonMail/gluon/connector"
+	"github.com/ProtonMail/gluon/imap"
+	"github.com/ProtonMail/gluon/limits"
 
 	"verifharness/core"
 	"verifharness/gen"
@@ -27,6 +29,9 @@ var c20Kinds = []string{"append", "arm", "disarm", "copyout", "moveout", "protec
 func (C20) Generate(r *core.Rand, tier string, idx int) *core.Scenario {
 	sc := &core.Scenario{Property: "C20", Cfg: map[string]int{}}
 	sc.Cfg["labels"] = r.Intn(2)
+	if r.P(1, 3) {
+		sc.Cfg["reclimit"] = 1
+	}
 	if r.P(1, 2) {
 		sc.Cfg["recfail"] = 1 // (finding F14, repaired) remote failures stay armed while messages are moved out of the recovery mailbox
 	}
@@ -45,6 +50,15 @@ func (C20) Generate(r *core.Rand, tier string, idx int) *core.Scenario {
 
 func (C20) Execute(sc *core.Scenario, keepLog bool) *core.Result {
 	cfg := world.Config{Users: []world.UserCfg{{Names: []string{"user"}, Password: "pass"}}}
+	// cfg reclimit: a small message-count limit (every mailbox, the recovery mailbox too):
+	// what the recovery mailbox has no room for is not kept - and must not be remembered
+	// as kept either
+	recRoom := 1 << 30
+	if sc.C("reclimit") == 1 {
+		recRoom = 3
+		lim := limits.NewIMAPLimits(1000, uint32(recRoom), imap.UID(1<<30), imap.UID(0xFFFFFFF0))
+		cfg.Limits = &lim
+	}
 	return RunInBubble("C20", sc, keepLog, cfg, func(e *Env) {
 		u := e.W.Users[0]
 		u.Conn.MoveRemovesSource = sc.C("labels") == 0
@@ -97,7 +111,15 @@ func (C20) Execute(sc *core.Scenario, keepLog bool) *core.Result {
 			case "arm":
 				kind := []string{simconn.KCreateMessage, simconn.KCreateMessage, simconn.KAddLabel, simconn.KRemoveLabel, simconn.KMove}[abs(a.Arg(0))%5]
 				var plan []error
-				switch abs(a.Arg(1)) % 5 {
+				switch abs(a.Arg(1)) % 8 {
+				case 5:
+					// the remote's other sentinel errors are failures like any other: only a
+					// size refusal exempts a message from being kept
+					plan = []error{connector.ErrOperationNotAllowed}
+				case 6:
+					plan = []error{fmt.Errorf("remote said: %w", connector.ErrOperationNotAllowed), simconn.ErrInjected}
+				case 7:
+					plan = []error{nil, connector.ErrOperationNotAllowed}
 				case 0:
 					plan = []error{simconn.ErrInjected}
 				case 1:
@@ -172,9 +194,13 @@ func (C20) Execute(sc *core.Scenario, keepLog bool) *core.Result {
 					if sizeErr {
 						e.St.Probes["size_exceeded"]++
 					} else if !recHas(msg.Marker) {
-						obj, _ := model.NewObj(msg.Marker, msg.Bytes, nil)
-						rec.Add(obj, false)
-						recovered++
+						if len(rec.Members) >= recRoom {
+							e.St.Probes["recovery_mailbox_full"]++
+						} else {
+							obj, _ := model.NewObj(msg.Marker, msg.Bytes, nil)
+							rec.Add(obj, false)
+							recovered++
+						}
 					} else {
 						deduped++
 					}
@@ -223,7 +249,9 @@ func (C20) Execute(sc *core.Scenario, keepLog bool) *core.Result {
 					}
 				} else {
 					failed++
-					if !recHas(o.Marker) {
+					if !recHas(o.Marker) && len(rec.Members) >= recRoom {
+						e.St.Probes["recovery_mailbox_full"]++
+					} else if !recHas(o.Marker) {
 						// identity (marker) is judged; the bytes are not: they carry the old ID
 						// header line, which the authoritative read strips only once
 						no, _ := model.NewObj(o.Marker, nil, nil)
